@@ -124,7 +124,7 @@ Record hobs := {
 (* one observed use of the static helpers *)
 Record helper := {
   hp_mode : string; hp_item : string; hp_batch : batch value; hp_value : value;
-  hp_has : bool; hp_index : option nat; hp_get : option value; hp_set : option (batch value);
+  hp_has : bool; hp_index : option nat; hp_get : option (batch value); hp_set : option (batch value);
   hp_add : string
 }.
 
@@ -329,7 +329,7 @@ Definition helper_model_ok (h : helper) : bool :=
   let items := split_space (hp_mode h) in
   Bool.eqb (has_item items (hp_item h)) (hp_has h) &&
   opt_eqb Nat.eqb (get_item_index items (hp_item h)) (hp_index h) &&
-  opt_eqb value_eqb (get_item items (hp_item h) (hp_batch h)) (hp_get h) &&
+  opt_eqb batch_eqb (get_item items (hp_item h) (hp_batch h)) (hp_get h) &&
   opt_eqb batch_eqb (set_item items (hp_item h) (hp_batch h) (hp_value h)) (hp_set h) &&
   String.eqb (add_item (hp_mode h) (hp_item h)) (hp_add h).
 
